@@ -85,13 +85,13 @@ fn main() {
             }
         });
         ctx.group("windows-and-chunks", |ctx| {
-            let lens: Vec<usize> = if ctx.lite { vec![0, 2, 7] } else { (0..=12).chain(boundary_lengths(2, 3)).chain(long_lengths(2)).collect() };
+            let lens: Vec<usize> = if ctx.lite { vec![0, 2, 7] } else { (0..=12).chain(boundary_lengths(2, 3)).chain(long_lengths(2)).chain(huge_lengths(ctx, 2)).collect() };
             for n in lens {
                 for rep in 0..ctx.n(40, 1500, 1) {
-                    if ctx.over() {
+                    if ctx.over() || (n > 1100 && rep >= 2) {
                         break;
                     }
-                    let codes = rand_codes(&mut ctx.rng, d, n);
+                    let codes = if n > 1100 { structured_codes(&mut ctx.rng, d, n, n + rep) } else { rand_codes(&mut ctx.rng, d, n) };
                     let pad = if ctx.lite { ctx.shard % 32 } else { (rep * 5 + n) % 32 };
                     let p = Padded::<Dna>::new(&mut ctx.rng, pad, &codes, 2);
                     let s = p.slice();
